@@ -238,7 +238,7 @@ def batch_oracle(case, rec):
     if mx > 0:
         total = sum(l + 2 for l in rec['lens'])
         nreal = len(real_lens)
-        if total <= mx and nreal != len(reqs):
+        if total <= mx and nreal != len(reqs) and not invalid:
             return 'c02:replaced-though-within-limit', f'results need {total} <= {mx} bytes but entries were replaced'
         if sum(l + 2 for l in real_lens) > mx:
             return 'c02:oversize-not-replaced', f'real results kept need {sum(l + 2 for l in real_lens)} > {mx} bytes'
